@@ -279,6 +279,12 @@ func refEq(a, b cty.Value) int {
 	case ty == cty.Number:
 		fa, fb := bf(a), bf(b)
 		if fa.Cmp(fb) == 0 {
+			if !fa.IsInf() && !fa.IsInt() && fa.Prec() != fb.Prec() && fa.Text('f', -1) != fb.Text('f', -1) {
+				// one fraction held at two mantissa precisions: the library's equality (shortest
+				// text at each number's own precision) says "different" - the upstream defect
+				// recorded for C03 (same-value-at-two-precisions); membership is not compared here
+				return eqMurky
+			}
 			return eqYes
 		}
 		if fa.IsInf() || fb.IsInf() {
@@ -392,7 +398,7 @@ func refMember(ms []cty.Value, x cty.Value) int {
 // ---------------------------------------------------------------------------
 
 func runC02(c *Ctx) {
-	nums := numAlphabet(c.Thorough)
+	nums := numAlphabet(true) // the pairs are cheap: the full alphabet in both tiers
 	vals := mkNums(nums)
 	binOps := []string{"Add", "Subtract", "Multiply", "Divide", "Modulo"}
 	cmpOps := []string{"LessThan", "GreaterThan", "LessThanOrEqualTo", "GreaterThanOrEqualTo"}
@@ -539,8 +545,16 @@ func runC02(c *Ctx) {
 			if _, pan, _ := callOp(opByName("Not"), []cty.Value{bad}); !pan {
 				u.Violation("Not.accepts-wrong-type", shapeOf(bad), "Not on a non-bool did not panic")
 			}
-			if _, pan, _ := callOp(opByName("And"), []cty.Value{cty.True, bad}); !pan {
-				u.Violation("And.accepts-wrong-type", shapeOf(bad), "And with a non-bool did not panic")
+			// with each boolean on either side (a dominating operand must not hide the type error)
+			for _, bv := range []cty.Value{cty.True, cty.False, cty.True.Mark(markM1), cty.False.Mark(markM1)} {
+				for _, on := range []string{"And", "Or"} {
+					for _, args := range [][]cty.Value{{bv, bad}, {bad, bv}} {
+						u.Eval(1)
+						if r, pan, _ := callOp(opByName(on), args); !pan {
+							u.Violation(on+".accepts-wrong-type", shapeOf(args[0])+" ; "+shapeOf(args[1]), fmt.Sprintf("%s(%s) = %s: an operand that is not a bool was accepted", on, argsStr(args), goStr(r)))
+						}
+					}
+				}
 			}
 			if bad.Type() != cty.Number {
 				if _, pan, _ := callOp(opByName("Add"), []cty.Value{cty.Zero, bad}); !pan {
@@ -556,7 +570,10 @@ func c02Members(thorough bool) map[string][]cty.Value {
 	m := map[string][]cty.Value{
 		"n": {cty.NumberIntVal(0), cty.NumberIntVal(1), cty.NumberFloatVal(2.5), cty.NumberFloatVal(0.1), parseNum("0.1"), cty.NumberIntVal(1<<53 + 1), cty.NullVal(cty.Number),
 			// the same whole numbers held at different mantissa precisions
-			cty.NumberUIntVal(1 << 63), cty.NumberFloatVal(9223372036854775808), cty.NumberFloatVal(1e30), parseNum("1000000000000000019884624838656")},
+			cty.NumberUIntVal(1 << 63), cty.NumberFloatVal(9223372036854775808), cty.NumberFloatVal(1e30), parseNum("1000000000000000019884624838656"),
+			// a float64 fraction widened to 64 bits by an arithmetic identity, and its own shortest text parsed again (512 bits): documented-equal
+			cty.NumberFloatVal(0.1).Add(cty.NumberIntVal(0)), parseNum(cty.NumberFloatVal(0.1).Add(cty.NumberIntVal(0)).AsBigFloat().Text('f', -1)),
+			cty.NumberFloatVal(2.5).Multiply(cty.NumberIntVal(1))},
 		"s":    {cty.StringVal(""), cty.StringVal("a"), cty.StringVal("e\u0301"), cty.StringVal("\u00e9"), cty.StringVal("k1"), cty.NullVal(cty.String)},
 		"b":    {cty.True, cty.False, cty.NullVal(cty.Bool)},
 		"L(n)": {cty.ListValEmpty(cty.Number), cty.ListVal([]cty.Value{cty.Zero}), cty.ListVal([]cty.Value{cty.Zero, cty.NumberIntVal(1)}), cty.NullVal(cty.List(cty.Number))},
